@@ -41,7 +41,63 @@ func runC17(c *Ctx) {
 		co := CalleeOf(ci)
 		return co != nil && co.Name() == "resealKeyToModeenv"
 	}))
-	if preLoop == nil || postLoop == nil || len(writes) != 1 || len(reseal) != 1 {
+	// the two task loops written once, as a private helper called with the pre and the post list
+	var preCall, postCall ssa.CallInstruction
+	if preLoop == nil && postLoop == nil && len(writes) == 1 && len(reseal) == 1 {
+		for _, hc := range localCalls(commit) {
+			_ = hc
+		}
+		for _, b := range commit.Blocks {
+			for _, in := range b.Instrs {
+				cc, ok := in.(ssa.CallInstruction)
+				if !ok {
+					continue
+				}
+				h := cc.Common().StaticCallee()
+				if h == nil || h.Pkg != commit.Pkg || len(h.Blocks) == 0 || len(cc.Common().Args) != 1 || len(h.Params) != 1 {
+					continue
+				}
+				if IsFieldLoad(cc.Common().Args[0], fPre) {
+					preCall = cc
+				}
+				if IsFieldLoad(cc.Common().Args[0], fPost) {
+					postCall = cc
+				}
+			}
+		}
+	}
+	if preCall != nil && postCall != nil && preCall.Common().StaticCallee() == postCall.Common().StaticCallee() {
+		h := preCall.Common().StaticCallee()
+		c.touch(h)
+		w, rs := writes[0], reseal[0]
+		hl := LoopsOver(h, VParam(h, 0))
+		if len(hl) != 1 {
+			c.Undecided("boot.(*bootStateUpdate20).commit#shape", h.Pos(), fmt.Sprintf("the task helper %s does not walk its argument in one loop", h.Name()))
+		} else {
+			taskOK := NilRes("t()==nil", 0, DynCallOf(VIs(hl[0].Elem)))
+			c.LatchGated("boot.(*bootStateUpdate20).commit#pre-task-failure-stops", hl[0], []Clause{{taskOK}})
+			c.LatchGated("boot.(*bootStateUpdate20).commit#post-task-failure-stops", hl[0], []Clause{{taskOK}})
+			nn := 0
+			for _, lf := range ReturnLeaves(h, -1) {
+				if IsNilConst(lf.Val) {
+					nn++
+					c.ThroughLoop(fmt.Sprintf("boot.(*bootStateUpdate20).commit#tasks-all-run-before-success#%d", nn), hl[0], lf)
+				}
+			}
+			only := func(x ssa.CallInstruction) CallM { return func(ci ssa.CallInstruction) bool { return ci == x } }
+			c.Guarded("boot.(*bootStateUpdate20).commit#pre-tasks-before-write", commit, w, []Clause{{NilRes(h.Name()+"(pre) ok", 0, only(preCall))}}, nil)
+			c.Guarded("boot.(*bootStateUpdate20).commit#post-tasks<=reseal-ok", commit, postCall, []Clause{{NilRes("resealKeyToModeenv ok", 0, only(rs))}}, nil)
+			deepEq := P.FuncObj("boot.(*Modeenv).deepEqual")
+			c.Guarded("boot.(*bootStateUpdate20).commit#post-tasks<=write-ok-or-unchanged", commit, postCall, []Clause{{NilRes("writeModeenv.Write ok", 0, ToFn(writeObj)), TrueRes("writeModeenv.deepEqual(modeenv)", true, 0, ToFn(deepEq))}}, nil)
+			rq := ReachQ{Fn: commit, From: LocOf(rs), Sink: SinkIs(w)}
+			c.Check(!rq.Run().Found, "boot.(*bootStateUpdate20).commit#write-before-reseal", rs.Pos(), "the modeenv is written before resealing", "resealing can precede the modeenv write")
+			c.CheckErrPropagated("boot.(*bootStateUpdate20).commit#post-task-error-returned", commit, postCall, 0, h.Name()+"(post)")
+		}
+		fWM := P.Field("boot.bootStateUpdate20.writeModeenv")
+		c.Check(IsFieldLoad(CallRecv(w), fWM), "boot.(*bootStateUpdate20).commit#writes-writeModeenv", w.Pos(), "u20.writeModeenv.Write()", "commit writes something other than u20.writeModeenv")
+		locked := TrueRes("isModeeenvLocked()", true, 0, ToFn(P.FuncObj("boot.isModeeenvLocked")))
+		c.Guarded("boot.(*bootStateUpdate20).commit#under-lock", commit, w, []Clause{{locked}}, nil)
+	} else if preLoop == nil || postLoop == nil || len(writes) != 1 || len(reseal) != 1 {
 		c.Undecided("boot.(*bootStateUpdate20).commit#shape", commit.Pos(), fmt.Sprintf("expected loops over pre/post tasks, one modeenv write and one reseal (found pre=%v post=%v writes=%d reseals=%d)", preLoop != nil, postLoop != nil, len(writes), len(reseal)))
 	} else {
 		w, rs := writes[0], reseal[0]
